@@ -4,7 +4,8 @@ import Yaql.Model.FloatRound
 `floatOfInt` on a corpus of rationals / bit patterns.
 
 request `{"p":"FloatRound","rat":[["<num>","<den>"],..],"div":[["<xbits>","<ybits>"],..],"int":["<i>",..]}`
-(integers as decimal strings); reply `{"rat":[r..],"div":["<bits>",..],"int":[r..],"hw":[..]}` with
+(integers as decimal strings); reply `{"rat":[r..],"div":["<bits>",..],"mul":["<bits>",..],"int":[r..],"hw":[..],"hwdiv":[..],"hwmul":[..]}` (`mul`: the product of the
+same pairs, `mulBits`) with
 `r = {"ok":"<bits>"} | {"ov":neg} | {"zd":true}`.  `hw` (a TEST, not part of the model): for the `rat` cases whose numerator
 and denominator are below 2^53, and for every `div` case, the same quotient computed by the machine's doubles (Lean
 `Float`) - the harness reports any difference between the model and the hardware. -/
@@ -39,6 +40,8 @@ def handle (req : Json) : Json :=
       ("hw", jl (rats.map fun p => hwRat p.1 p.2)),
       ("div", jl (divs.map fun p => js (toString (divBits p.1 p.2).toNat))),
       ("hwdiv", jl (divs.map fun p => js (toString (Float.ofBits p.1 / Float.ofBits p.2).toBits.toNat))),
+      ("mul", jl (divs.map fun p => js (toString (mulBits p.1 p.2).toNat))),
+      ("hwmul", jl (divs.map fun p => js (toString (Float.ofBits p.1 * Float.ofBits p.2).toBits.toNat))),
       ("int", jl (ints.map fun i => match floatOfInt i with
         | some w => jo [("ok", js (toString w.toNat))] | none => jo [("ov", jb (decide (i < 0)))]))]
 
